@@ -169,7 +169,7 @@ struct Gen {
                         }
                         if ((kind == K_READ || kind == K_TEST) && r.chance(K.p_text_act)) {
                                 st.act = r.coin() ? A_SETTEXT : A_APPEND;
-                                int mx = std::max(2, cap - 2);
+                                int mx = std::max(2, cap - 1); // the longest text that still leaves room for the terminator
                                 int len = r.chance(0.15) ? mx : (int)r.range(2, std::min(mx, 12));
                                 // handler texts of event sources and of line-addressable commands never coincide, so that
                                 // a unit on the wire is attributable to its producer
@@ -1363,6 +1363,7 @@ void knobs_for(const std::string &prop, Knobs &K, Rng &r)
                 K.max_cmds = 5;
                 K.p_garbage = 0.03;
         } else if (prop == "C13") {
+                K.p_long_run = 0.15; // long trigger histories: ring indices wrap many laps
                 K.p_events = 1.0;
                 K.ev_cmds_max = 4;
                 K.max_lines = 6;
